@@ -95,6 +95,11 @@ type runner struct {
 	grants      []int
 	probes      []int
 	blockedByUs []bool // oracle's view: taken out and not yet reinstated
+	// probe liveness: probeRef[i] = the latest moment from which the 30 s to the next probe candidate
+	// may be counted (blocked / candidate queued / probe call handed out / a status check during
+	// which the endpoint could not be connected to or still had a candidate waiting)
+	probeRef    []int64
+	probeRefSet []bool
 }
 
 func newRunner(n int, seed int64, name string, res *common.Result) (*runner, error) {
@@ -115,6 +120,8 @@ func newRunner(n int, seed int64, name string, res *common.Result) (*runner, err
 	r.grants = make([]int, n)
 	r.probes = make([]int, n)
 	r.blockedByUs = make([]bool, n)
+	r.probeRef = make([]int64, n)
+	r.probeRefSet = make([]bool, n)
 	r.lines = append(r.lines, fmt.Sprintf("init auto 2000000000 %d", n))
 	r.impls = append(r.impls, "-|"+r.implState())
 	r.opIdx = append(r.opIdx, -1)
@@ -378,11 +385,17 @@ func (r *runner) execChk(opi int) {
 			conn = append(conn, i)
 		}
 	}
+	qlen0 := w.vm.ProbeQueueLen()
+	up := make([]bool, w.n)
+	for i, sv := range w.srv {
+		up[i] = sv.isUp()
+	}
 	w.vm.CheckStatus()
 	r.post(s)
 	if r.tainted {
 		return
 	}
+	qlen1 := w.vm.ProbeQueueLen()
 	act1 := r.activeCounts()
 	pend1 := map[string]bool{}
 	for _, k := range w.vm.ProbePending() {
@@ -434,6 +447,47 @@ func (r *runner) execChk(opi int) {
 		}
 		if st0[i].Exists && !st0[i].Status && h1.Status {
 			r.violate("unblocked-without-success", "checkStatus", fmt.Sprintf("endpoint %d went back to active without a successful probe", i))
+		}
+	}
+	// probe liveness ("a blocked endpoint is THEN probed ... every 30 seconds": probing keeps
+	// happening). An endpoint that was blocked before this check, can be connected to, has no
+	// candidate waiting (by the oracle's own count of candidates queued and handed out — NOT by the
+	// implementation's marker) and whose reference time is >= 30 s ago must be queued by this check.
+	markerGrants := 0
+	var starved []int
+	for i, k := range w.keys {
+		granted := pend1[k] && !pend0[k]
+		if granted {
+			markerGrants++
+		}
+		blocked0 := st0[i].Exists && !st0[i].Status
+		if !blocked0 {
+			continue
+		}
+		if !r.probeRefSet[i] { // blocked before the oracle saw it happen: count from now
+			r.probeRef[i], r.probeRefSet[i] = r.vnow, true
+			continue
+		}
+		outstanding := r.grants[i]-b01(granted) > r.probes[i]
+		switch {
+		case granted:
+			r.probeRef[i] = r.vnow
+		case !up[i] || outstanding:
+			r.probeRef[i] = r.vnow
+		case r.vnow-r.probeRef[i] >= propProbeEvery:
+			starved = append(starved, i)
+		}
+	}
+	if unexplained := (qlen1 - qlen0) - markerGrants; len(starved) > unexplained {
+		i := starved[0]
+		r.violate("probe-starved", "checkStatus", fmt.Sprintf("endpoint %d is blocked, can be connected to, has no probe candidate waiting and was last blocked/queued/probed %d s ago, but the status check did not queue it as probe candidate: it is never probed again", i, r.vnow-r.probeRef[i]))
+		for _, j := range starved {
+			r.probeRef[j] = r.vnow // report once per 30 s
+		}
+	}
+	for i := range w.keys {
+		if h1 := w.vm.Health(w.keys[i]); (act1[i] < act0[i]) || (st0[i].Exists && st0[i].Status && h1.Exists && !h1.Status) {
+			r.probeRef[i], r.probeRefSet[i] = r.vnow, true // taken out now
 		}
 	}
 }
@@ -561,7 +615,16 @@ func (r *runner) execStart(opi int, op Op) {
 	r.count("start", cls)
 
 	// ---- oracle ----
+	if !probe {
+		for i := range w.keys {
+			if r.grants[i] > r.probes[i] {
+				r.violate("probe-starved", "SelectAdapterProxy", fmt.Sprintf("a probe candidate (endpoint %d) is waiting but the call was not used as its probe", i))
+				break
+			}
+		}
+	}
 	if probe {
+		r.probeRef[ep], r.probeRefSet[ep] = r.vnow, true
 		if r.everProbe[ep] && r.vnow-r.lastProbe[ep] < propProbeEvery {
 			r.violate("probe-burst", "SelectAdapterProxy", fmt.Sprintf("blocked endpoint %d was probed by two calls %d s apart (probe candidates are queued >= 30 s apart but consumed whenever the next call comes)", ep, r.vnow-r.lastProbe[ep]))
 		}
@@ -774,7 +837,7 @@ func main() {
 	}
 	res.Rule = "case = history over 2..5 registry endpoints of {start call (consistent-hash/round-robin/mod-hash, one-way or two-way), " +
 		"answer or cancel an open call, advance d s (boundary-dense around 5/30/60), checkStatus, server up/down}; directed scenarios around every " +
-		"threshold plus random histories; every step compares events + full health records + activeEp + probe queue with the Lean model; " +
+		"threshold (incl. k failed probes in a row followed by recovery) plus random histories; every step compares events + full health records + activeEp + probe queue with the Lean model; " +
 		"non-trivial = distinct (step kind, resulting state) other than pure time advances"
 	if err := res.Write(o.Out); err != nil {
 		fmt.Fprintln(os.Stderr, err)
@@ -1025,6 +1088,32 @@ func (g *gen) scenario(kind, rep int) {
 		r.exec(Op{K: "adv", D: pick(1, 2)})
 		r.exec(Op{K: "chk"})
 		g.traffic(4)
+	case 7: // k failed probes in a row, then the server recovers: probing must keep happening
+		failsOn(int(pick(2, 5)), false)
+		r.exec(Op{K: "adv", D: 5})
+		r.exec(Op{K: "chk"})
+		k := 1 + rep%3
+		for round := 0; round < k; round++ {
+			if rep%4 == 3 && round == 0 { // not connectable at the first attempt
+				r.exec(Op{K: "toggle", Ep: j, Up: false})
+				r.exec(Op{K: "adv", D: pick(30, 31)})
+				r.exec(Op{K: "chk"})
+				r.exec(Op{K: "toggle", Ep: j, Up: true})
+			}
+			r.exec(Op{K: "adv", D: []int64{30, 31, 45}[(rep+round)%3]})
+			r.exec(Op{K: "chk"})
+			g.call(Op{K: "start", Sel: "con", Hash: rng.Uint32()}, false) // the probe; it fails
+			if rng.Intn(2) == 0 {
+				g.traffic(2)
+			}
+		}
+		r.exec(Op{K: "adv", D: pick(29, 30, 30, 31)})
+		r.exec(Op{K: "chk"})
+		g.call(Op{K: "start", Sel: "con", Hash: rng.Uint32()}, true) // probe again: succeeds
+		r.exec(Op{K: "adv", D: pick(1, 2)})
+		r.exec(Op{K: "chk"})
+		g.call(Op{K: "start", Sel: "con", Hash: rng.Uint32()}, true)
+		g.traffic(6)
 	case 6: // two probes in flight at once, one-way probe
 		failsOn(5, false)
 		r.exec(Op{K: "adv", D: 5})
@@ -1074,7 +1163,7 @@ func generate(o *common.Opts, res *common.Result, m *common.Model) {
 		}
 	}
 	for rep := 0; rep < nScen; rep++ {
-		for kind := 0; kind <= 6; kind++ {
+		for kind := 0; kind <= 7; kind++ {
 			n := 2 + rng.Intn(3)
 			if kind == 3 {
 				n = 1 + rng.Intn(3)
